@@ -345,6 +345,17 @@ def find_check_cache(context):
     except FileNotFoundError:
         return
 
+    # If the cache is newer than the build file, a previous regeneration was
+    # interrupted after saving the cache but before writing the build file;
+    # the cache then describes files the build file doesn't know about yet, so
+    # we can't use it to skip regeneration.
+    cache_path = os.path.join(context.env.builddir.string(),
+                              FindCacheFile.cachefile)
+    if ( os.stat(cache_path).st_mtime_ns >
+         _path.getmtime_ns(regen_files.outputs[0], context.env.base_dirs,
+                           strict=False) ):
+        return
+
     # Check if any of the explicit inputs are newer than any of the explicit
     # outputs. If so, we definitely want to regenerate the build files.
     if ( max(_path.getmtime_ns(i, context.env.base_dirs, strict=False)
